@@ -74,7 +74,10 @@ def project_of(c, idx):
                 w["windows"].append(v)
                 wins.append({"name": v["name"], "x": round(v["x"] * 1000), "y": round(v["y"] * 1000), "w": round(v["w"] * 1000), "h": round(v["h"] * 1000),
                              "sb": round(v["setback"] * 1000), "wall": w["name"]})
-        tags[w["name"]] = {"kind": "edge", "i": i + 1}
+        tags[w["name"]] = {"kind": "edge", "i": i + 1, "dz": 0}
+        if not w["windows"] and (idx + 2 * i) % 5 == 0:
+            w["z"] = [1.2, 0.5, 2.7][(idx + i) % 3]          # a Z of its own, no X / Y
+            tags[w["name"]]["dz"] = int(round(w["z"] * 10))
         space["walls"].append(w)
     space["walls"].append({"name": sname + "_Suelo", "kind": ["UNDERGROUND-WALL", "EXTERIOR-WALL"][idx % 2], "layers": "Forjado", "loc": "BOTTOM", "windows": []})
     tags[sname + "_Suelo"] = {"kind": "bottom", "i": 0}
@@ -195,8 +198,9 @@ def source_descriptors(text):
             has_poly = "POLYGON" in a
             off = (num(a, "X"), num(a, "Y"), num(a, "Z"))
             if loc.startswith("SPACE-V") and not has_poly:
-                if off == (0.0, 0.0, 0.0) and loc[7:].isdigit() and 1 <= int(loc[7:]) <= len(cur["c"]["sp"]["outline"]):
-                    cur["tags"][b["name"]] = {"kind": "edge", "i": int(loc[7:])}
+                # (an offset in height alone is kept: the strip of facade above the ground of a half-buried storey)
+                if off[0] == 0.0 and off[1] == 0.0 and loc[7:].isdigit() and 1 <= int(loc[7:]) <= len(cur["c"]["sp"]["outline"]):
+                    cur["tags"][b["name"]] = {"kind": "edge", "i": int(loc[7:]), "dz": mm(off[2])}
             elif loc in ("TOP", "BOTTOM") and not has_poly:
                 if off == (0.0, 0.0, 0.0) and "AZIMUTH" not in a:
                     cur["tags"][b["name"]] = {"kind": "top" if loc == "TOP" else "bottom", "i": 0}
